@@ -386,6 +386,44 @@ func init() {
 	externals["(*internal/godebug.Setting).IncNonDefault"] = func(p *Path, fr *Frame, fn *ssa.Function, a []Value) Value { return nil }
 	externals["(*internal/godebug.Setting).Name"] = func(p *Path, fr *Frame, fn *ssa.Function, a []Value) Value { return Str{} }
 
+	// sort.Slice / sort.SliceStable (reflection-based swapper): insertion sort calling the real less closure
+	sortSlice := func(p *Path, fr *Frame, fn *ssa.Function, a []Value) Value {
+		it, _ := a[0].(Iface)
+		less := a[1]
+		callLess := func(i, j int) bool {
+			r := p.callValue(fr, less, []Value{p.tt.I64(int64(i)), p.tt.I64(int64(j))}, false)
+			return p.branch(r.(*Term))
+		}
+		switch s := it.v.(type) {
+		case GSlice:
+			for i := 1; i < s.n; i++ {
+				for j := i; j > 0 && callLess(j, j-1); j-- {
+					c := s.arr.cells
+					c[s.off+j], c[s.off+j-1] = c[s.off+j-1], c[s.off+j]
+				}
+			}
+		case BSlice:
+			if s.arr == nil {
+				return nil
+			}
+			n := p.concLen(s.n, "sort.Slice length")
+			for i := 1; i < n; i++ {
+				for j := i; j > 0 && callLess(j, j-1); j-- {
+					ia := p.tt.Bin(OAdd, s.off, p.tt.U64(uint64(j)))
+					ib := p.tt.Bin(OAdd, s.off, p.tt.U64(uint64(j-1)))
+					va, vb := p.arrRead(s.arr.head, ia, s.arr.elem), p.arrRead(s.arr.head, ib, s.arr.elem)
+					p.arrWrite(s.arr, ia, vb)
+					p.arrWrite(s.arr, ib, va)
+				}
+			}
+		default:
+			p.unsupported("sort.Slice on %T", it.v)
+		}
+		return nil
+	}
+	externals["sort.Slice"] = sortSlice
+	externals["sort.SliceStable"] = sortSlice
+
 	// ---- os / runtime / misc ----
 	externals["os.Getenv"] = func(p *Path, fr *Frame, fn *ssa.Function, a []Value) Value { return Str{} }
 	externals["os.LookupEnv"] = func(p *Path, fr *Frame, fn *ssa.Function, a []Value) Value {
